@@ -294,3 +294,135 @@ Proof.
   exists p, s'. split; [reflexivity|]. apply andb_true_iff in H. destruct H as [H1 H2]. split; [|exact H2].
   apply Nat.eqb_eq. exact H1.
 Qed.
+
+(* ====================================================================================================== *)
+(* agent-rand2: the exact boundary of the finding singlepoint-empty-child-unrelated-parents (D13).        *)
+(* For populations made by NewPopulationRandom (genomes WITHOUT common ancestry) single-point crossover    *)
+(* is the ONLY obstacle: if every constructed genome has a connection gene and the options are such that   *)
+(* single-point crossover is never chosen, every genome of every epoch is well-formed and keeps the        *)
+(* input, bias and output nodes.  Proofs: proofs/NoSinglePoint.v (the method draw, binary64),              *)
+(* proofs/RandPopWF.v (the weakened registry invariant GInvR: see props/C03.v).                            *)
+(*                                                                                                        *)
+(* The method draw of Species.reproduce (species.go:445-465; model: Population.one_baby):                  *)
+(*     if rand.Float64() < MateMultipointProb { mateMultipoint }                                           *)
+(*     else if rand.Float64() < MateMultipointAvgProb/(MateMultipointAvgProb+MateSinglepointProb) { mateMultipointAvg } *)
+(*     else { mateSinglePoint }                                                                            *)
+(* The condition on the options ("no_single o" in the proofs, written out in every statement below):       *)
+(*     1 <= MateMultipointProb   or   1 <= MateMultipointAvgProb/(MateMultipointAvgProb+MateSinglepointProb) *)
+(* in binary64 (NaN fails both).  MateSinglepointProb = 0 alone is NOT enough: with MateMultipointAvgProb  *)
+(* = 0 as well the quotient is 0/0 = NaN and the third branch is taken whenever the first draw fails.      *)
+(* ====================================================================================================== *)
+From NeatModel Require Import NoSinglePoint RandPopWF.
+
+(* under the condition, the method choice never reaches its third branch: whatever computation stands
+   there (m3, m3'), the result is the same; for EVERY state, i.e. every tape (the model's rand.Float64()
+   is below 1 for every tape cell, genuine Int63() draw or not) *)
+Theorem C01_single_point_never_chosen : forall (A : Type) o (m1 m2 m3 m3' : @M st A) s,
+    (PrimFloat.leb 1 (o_mate_multi o) = true \/
+     PrimFloat.leb 1 (PrimFloat.div (o_mate_multi_avg o) (PrimFloat.add (o_mate_multi_avg o) (o_mate_single o))) = true) ->
+    (let! r3 := r_float64 in
+     if PrimFloat.ltb r3 (o_mate_multi o) then m1
+     else let! r4 := r_float64 in
+          if PrimFloat.ltb r4 (PrimFloat.div (o_mate_multi_avg o) (PrimFloat.add (o_mate_multi_avg o) (o_mate_single o)))
+          then m2 else m3) s =
+    (let! r3 := r_float64 in
+     if PrimFloat.ltb r3 (o_mate_multi o) then m1
+     else let! r4 := r_float64 in
+          if PrimFloat.ltb r4 (PrimFloat.div (o_mate_multi_avg o) (PrimFloat.add (o_mate_multi_avg o) (o_mate_single o)))
+          then m2 else m3') s.
+Proof. intros A o m1 m2 m3 m3' s H. exact (method_draw_never_single o m1 m2 m3 m3' s H). Qed.
+Print Assumptions C01_single_point_never_chosen.
+
+(* the condition is also necessary: when it fails, the two tape cells 2^63 - 2^10 (each yields 1 - 2^-53, the
+   largest value of rand.Float64()) make both comparisons fail, so mateSinglePoint is called *)
+Theorem C01_single_point_condition_necessary : forall o e t,
+    ~ (PrimFloat.leb 1 (o_mate_multi o) = true \/
+       PrimFloat.leb 1 (PrimFloat.div (o_mate_multi_avg o) (PrimFloat.add (o_mate_multi_avg o) (o_mate_single o))) = true) ->
+    let s := {| s_tape := (2 ^ 63 - 2 ^ 10) :: (2 ^ 63 - 2 ^ 10) :: t; s_env := e |} in
+    exists s1 s2, r_float64 s = Ok (0x1.fffffffffffffp-1%float, s1) /\ r_float64 s1 = Ok (0x1.fffffffffffffp-1%float, s2) /\
+      PrimFloat.ltb 0x1.fffffffffffffp-1%float (o_mate_multi o) = false /\
+      PrimFloat.ltb 0x1.fffffffffffffp-1%float
+                    (PrimFloat.div (o_mate_multi_avg o) (PrimFloat.add (o_mate_multi_avg o) (o_mate_single o))) = false.
+Proof. exact no_single_necessary. Qed.
+Print Assumptions C01_single_point_condition_necessary.
+
+(* a sufficient reading of the condition: MateSinglepointProb = 0 and MateMultipointAvgProb finite and positive *)
+Theorem C01_single_point_prob_zero : forall o,
+    o_mate_single o = 0%float ->
+    PrimFloat.ltb 0 (o_mate_multi_avg o) = true -> PrimFloat.ltb (o_mate_multi_avg o) infinity = true ->
+    PrimFloat.leb 1 (o_mate_multi o) = true \/
+    PrimFloat.leb 1 (PrimFloat.div (o_mate_multi_avg o) (PrimFloat.add (o_mate_multi_avg o) (o_mate_single o))) = true.
+Proof. exact no_single_zero. Qed.
+Print Assumptions C01_single_point_prob_zero.
+
+(* the history theorem for random populations: C01_history_wf with new_population replaced by
+   new_population_random (every genome of which has a gene: C01_random_population_wf characterises the
+   others) and the condition on the options; every genome of every population of the history is well-formed
+   and carries the documented input, bias and output nodes *)
+Theorem C01_history_wf_random : forall o in_ out max_hidden recurrent link_prob s0 p s l p' s',
+    1 <= in_ -> 1 <= out -> Genome.innovs (s_env s0) = [] ->
+    (PrimFloat.leb 1 (o_mate_multi o) = true \/
+     PrimFloat.leb 1 (PrimFloat.div (o_mate_multi_avg o) (PrimFloat.add (o_mate_multi_avg o) (o_mate_single o))) = true) ->
+    new_population_random o in_ out max_hidden recurrent link_prob s0 = Ok (p, s) ->
+    (forall x, In x (p_heap p) -> genes (o_genome x) <> []) ->
+    history o p s l p' s' ->
+    forall q, In q (p :: l) -> forall x, In x (p_heap q) ->
+      wf (o_genome x) /\
+      (forall i, 1 <= i <= in_ -> In (i, if Z.eqb i in_ then BIAS else INPUT) (io_nodes (o_genome x))) /\
+      (forall i, in_ + max_hidden + 1 <= i <= in_ + max_hidden + out -> In (i, OUTPUT) (io_nodes (o_genome x))).
+Proof. exact random_history_wf. Qed.
+Print Assumptions C01_history_wf_random.
+
+(* the same through the key lists, in the shape of C01_history_wf *)
+Theorem C01_history_wf_random_reachable : forall o in_ out max_hidden recurrent link_prob s0 p s l p' s',
+    1 <= in_ -> 1 <= out -> Genome.innovs (s_env s0) = [] ->
+    (PrimFloat.leb 1 (o_mate_multi o) = true \/
+     PrimFloat.leb 1 (PrimFloat.div (o_mate_multi_avg o) (PrimFloat.add (o_mate_multi_avg o) (o_mate_single o))) = true) ->
+    new_population_random o in_ out max_hidden recurrent link_prob s0 = Ok (p, s) ->
+    (forall x, In x (p_heap p) -> genes (o_genome x) <> []) ->
+    history o p s l p' s' ->
+    forall q, In q (p :: l) -> forall k x, hget (p_heap q) k = Ok x ->
+      wf (o_genome x) /\ forall a, In a (p_heap p) -> retains_io (o_genome a) (o_genome x).
+Proof. exact random_history_wf_reachable. Qed.
+Print Assumptions C01_history_wf_random_reachable.
+
+(* non-vacuity: rand.Seed(42), NewPopulationRandom(3, 2, 3, true, 0.5) with PopSize 8 returns 8 genomes that all
+   have genes; with MateMultipointProb 0.6, MateMultipointAvgProb 0.4, MateSinglepointProb 0 the condition holds;
+   two epochs (fitness 1..8, compatibility threshold 100 so that the unrelated genomes share a species and mate)
+   succeed, and babies of both epochs were made by crossover *)
+Definition c01_rand_epoch_opts : options :=
+  GenomeLit.OPT
+      [0x1p-01%float; 0x1p+00%float; 0x1.4p+01%float; 0x1p+00%float; 0x1p+00%float; 0x1.999999999999ap-02%float;
+       0x1.9p+6%float; 0x1p+00%float; 0x1.999999999999ap-03%float; 0x1p-02%float; 0x1.999999999999ap-04%float;
+       0x1.999999999999ap-04%float; 0x1.999999999999ap-04%float; 0x1.ccccccccccccdp-01%float; 0x1.999999999999ap-04%float;
+       0x1.999999999999ap-04%float; 0x1.3333333333333p-02%float; 0x1p-01%float; 0x1.999999999999ap-04%float;
+       0x1.999999999999ap-04%float; 0x1.3333333333333p-01%float; 0x1.999999999999ap-02%float; 0%float;
+       0x1.999999999999ap-03%float; 0x1.999999999999ap-03%float] 8 15 20 0 false [4; 11] [0x1p-1%float; 0x1p-1%float].
+Definition c01_rand_epoch_fit : list float := [1; 2; 3; 4; 5; 6; 7; 8]%float.
+
+Example C01_history_wf_random_nonvacuous :
+  (PrimFloat.leb 1 (o_mate_multi c01_rand_epoch_opts) = true \/
+   PrimFloat.leb 1 (PrimFloat.div (o_mate_multi_avg c01_rand_epoch_opts)
+                                  (PrimFloat.add (o_mate_multi_avg c01_rand_epoch_opts) (o_mate_single c01_rand_epoch_opts))) = true) /\
+  Genome.innovs (s_env c01_rand_st) = [] /\
+  exists p s l p' s',
+    new_population_random c01_rand_epoch_opts 3 2 3 true 0x1p-1%float c01_rand_st = Ok (p, s) /\
+    (length (p_heap p) = 8)%nat /\ (forall x, In x (p_heap p) -> genes (o_genome x) <> []) /\
+    history c01_rand_epoch_opts p s l p' s' /\ (length l = 2)%nat /\
+    forallb (fun q => existsb o_mate (p_heap q)) l = true.
+Proof.
+  split; [right; vm_compute; reflexivity|]. split; [reflexivity|].
+  assert (H : match run_random c01_rand_epoch_opts 3 2 3 true 0x1p-1%float c01_rand_st c01_rand_epoch_fit 2 with
+              | Ok (p :: l, _) => Nat.eqb (length (p_heap p)) 8 &&
+                                  forallb (fun x => negb (Nat.eqb (length (genes (o_genome x))) 0)) (p_heap p) &&
+                                  forallb (fun q => existsb o_mate (p_heap q)) l
+              | _ => false
+              end = true) by (vm_compute; reflexivity).
+  destruct (run_random c01_rand_epoch_opts 3 2 3 true 0x1p-1%float c01_rand_st c01_rand_epoch_fit 2) as [[l0 s2]| | | | |] eqn:E;
+    try discriminate H.
+  destruct (run_random_history _ _ _ _ _ _ _ _ _ _ _ E) as (p & s & l & p' & s' & A & Hh & Hl & ->).
+  apply andb_true_iff in H. destruct H as [H H3]. apply andb_true_iff in H. destruct H as [H1 H2].
+  exists p, s, l, p', s'. split; [exact A|]. split; [apply Nat.eqb_eq; exact H1|]. split.
+  - intros x Hx G. rewrite forallb_forall in H2. specialize (H2 x Hx). rewrite G in H2. discriminate H2.
+  - split; [exact Hh|]. split; [exact Hl|exact H3].
+Qed.
